@@ -1,7 +1,465 @@
-(** Proofs for C09 (transparent tunnels). *)
-From Coq Require Import String List NArith Bool Arith Lia.
-From Fabio Require Import Lib.Outcome Lib.Bytes Model.ClientHello Model.BufioR Model.Tunnel.
+(** Proofs for C09 (transparent tunnels): copy loop, PROXY line, the bufio.Reader
+    conservation invariant, the SNI leftover, the two-copier race. *)
+From Coq Require Import String List NArith Bool Arith PeanoNat Lia.
+From Fabio Require Import Lib.Outcome Lib.Bytes Model.ClientHello Model.BufioR Model.Tunnel Proofs.ClientHello.
 Import ListNotations.
 
-Lemma placeholder_true : True.
-Proof. exact I. Qed.
+(* ================= the scripted source ================= *)
+Lemma src_read_conserves m src d s' e :
+  src_read m src = (d, s', e) -> d ++ concat s' = concat src.
+Proof.
+  revert d s' e; induction src as [|seg rest IH]; intros d s' e H.
+  - cbn [src_read] in H. inversion H; subst. reflexivity.
+  - destruct seg as [|x seg].
+    + cbn [src_read] in H. cbn [concat app]. eauto.
+    + cbn [src_read] in H. inversion H; subst. cbn [concat].
+      rewrite app_assoc, firstn_skipn. reflexivity.
+Qed.
+
+Lemma src_read_eof m src d s' :
+  src_read m src = (d, s', true) -> d = [] /\ concat src = [].
+Proof.
+  revert d s'; induction src as [|seg rest IH]; intros d s' H.
+  - cbn [src_read] in H. inversion H; subst. split; reflexivity.
+  - destruct seg as [|x seg].
+    + cbn [src_read] in H. cbn [concat app]. eauto.
+    + cbn [src_read] in H. inversion H.
+Qed.
+
+Lemma src_read_progress m src d s' :
+  (0 < m)%nat -> src_read m src = (d, s', false) ->
+  d <> [] /\ (src_measure s' < src_measure src)%nat.
+Proof.
+  intros Hm. revert d s'; induction src as [|seg rest IH]; intros d s' H.
+  - cbn [src_read] in H. inversion H.
+  - destruct seg as [|x seg].
+    + cbn [src_read] in H. destruct (IH _ _ H) as [Hd Hlt]. split; [exact Hd|].
+      unfold src_measure in *. cbn [concat app length]. lia.
+    + cbn [src_read] in H. inversion H; subst. destruct m as [|m']; [lia|].
+      split; [cbn [firstn]; discriminate|].
+      unfold src_measure. cbn [concat length].
+      rewrite !app_length, skipn_length. cbn [length]. lia.
+Qed.
+
+(* ================= copy_buffer.go ================= *)
+(* for every segmentation of the source and every buffer size the destination receives
+   exactly the source's bytes, and the loop terminates within the stated fuel *)
+Lemma copy_loop_preserves m : (0 < m)%nat -> forall fuel src,
+  (src_measure src < fuel)%nat -> copy_loop fuel m src = Some (concat src).
+Proof.
+  intros Hm. induction fuel as [|f IH]; intros src Hf; [lia|].
+  cbn [copy_loop]. destruct (src_read m src) as [[d s'] e] eqn:E. destruct e.
+  - apply src_read_eof in E. destruct E as [_ ->]. reflexivity.
+  - pose proof (src_read_conserves _ _ _ _ _ E) as Hc.
+    destruct (src_read_progress _ _ _ _ Hm E) as [_ Hlt].
+    rewrite IH by lia. now rewrite Hc.
+Qed.
+
+Lemma copy_buf_pos : (0 < copy_buf_size)%nat.
+Proof. unfold copy_buf_size. pose proof (Nnat.N2Nat.inj_compare 0 32768) as H. vm_compute in H.
+  apply Nat.compare_lt_iff. change 0%nat with (N.to_nat 0). symmetry. exact H. Qed.
+
+Theorem copy_preserves_stream : forall src : list str, copy_buffer src = Ok (concat src).
+Proof.
+  intros src. unfold copy_buffer. rewrite (copy_loop_preserves _ copy_buf_pos) by lia. reflexivity.
+Qed.
+
+(* "for every chunking": any two segmentations of the same bytes are copied to the same output *)
+Corollary copy_chunking_irrelevant : forall a b : list str,
+  concat a = concat b -> copy_buffer a = copy_buffer b.
+Proof. intros a b H. now rewrite !copy_preserves_stream, H. Qed.
+
+Corollary copy_any_buffer_size : forall m src, (0 < m)%nat ->
+  copy_loop (S (src_measure src)) m src = Some (concat src).
+Proof. intros. apply copy_loop_preserves; [assumption | lia]. Qed.
+
+(* ================= proxy_proto.go ================= *)
+Definition no_sep (f : str) : Prop := ~ In 32%N f.
+
+Lemma field_split (x x' r r' : str) :
+  no_sep x -> no_sep x' -> x ++ 32%N :: r = x' ++ 32%N :: r' -> x = x' /\ r = r'.
+Proof.
+  revert x'; induction x as [|a x IH]; intros x' Hx Hx' H.
+  - destruct x' as [|b x']; cbn [app] in H.
+    + inversion H. split; reflexivity.
+    + inversion H; subst. exfalso. apply Hx'. left; reflexivity.
+  - destruct x' as [|b x']; cbn [app] in H.
+    + inversion H; subst. exfalso. apply Hx. left; reflexivity.
+    + inversion H; subst. destruct (IH x') as [-> ->]; try assumption.
+      * intros Hin. apply Hx. right; exact Hin.
+      * intros Hin. apply Hx'. right; exact Hin.
+      * split; reflexivity.
+Qed.
+
+(* the line is "PROXY TCP4|TCP6 <client> <listener> <client port> <listener port>\r\n" *)
+Theorem proxy_line_format : forall is4 ca sa cp sp,
+  proxy_line is4 ca sa cp sp =
+    bs "PROXY "%string ++ (if is4 then bs "TCP4"%string else bs "TCP6"%string) ++ bs " "%string ++ ca ++ bs " "%string ++ sa
+      ++ bs " "%string ++ cp ++ bs " "%string ++ sp ++ [13%N; 10%N].
+Proof. reflexivity. Qed.
+
+(* ... and it is unambiguous: fields without a space can be read back *)
+Theorem proxy_line_injective : forall is4 is4' ca sa cp sp ca' sa' cp' sp',
+  no_sep ca -> no_sep sa -> no_sep cp -> no_sep ca' -> no_sep sa' -> no_sep cp' ->
+  proxy_line is4 ca sa cp sp = proxy_line is4' ca' sa' cp' sp' ->
+  is4 = is4' /\ ca = ca' /\ sa = sa' /\ cp = cp' /\ sp = sp'.
+Proof.
+  intros is4 is4' ca sa cp sp ca' sa' cp' sp' H1 H2 H3 H1' H2' H3' H.
+  unfold proxy_line in H.
+  assert (Hp : is4 = is4' /\ ca ++ [32%N] ++ sa ++ [32%N] ++ cp ++ [32%N] ++ sp ++ [13%N; 10%N]
+                             = ca' ++ [32%N] ++ sa' ++ [32%N] ++ cp' ++ [32%N] ++ sp' ++ [13%N; 10%N]).
+  { destruct is4, is4'; cbn in H; inversion H; split; try reflexivity; cbn [app]; assumption. }
+  destruct Hp as [-> Hp]. cbn [app] in Hp.
+  apply field_split in Hp; try assumption. destruct Hp as [-> Hp].
+  apply field_split in Hp; try assumption. destruct Hp as [-> Hp].
+  apply field_split in Hp; try assumption. destruct Hp as [-> Hp].
+  apply app_inv_tail in Hp. subst. repeat split; reflexivity.
+Qed.
+
+(* ================= what the upstream receives ================= *)
+(* tcp: for every segmentation, [PROXY line] ++ the client's bytes from the first one on *)
+Theorem tcp_upstream_stream : forall pp line segs,
+  upstream_stream KTcp pp line segs = Ok (Some ((if pp then line else []) ++ concat segs)).
+Proof.
+  intros. unfold upstream_stream, tunnel_setup. cbn [bind s_src s_pre].
+  rewrite copy_preserves_stream. reflexivity.
+Qed.
+
+Corollary tcp_upstream_meets_spec : forall pp line segs,
+  upstream_stream KTcp pp line segs = Ok (Some (spec_upstream KTcp pp line (concat segs))).
+Proof. intros. rewrite tcp_upstream_stream. reflexivity. Qed.
+
+(* tcp-dynamic: the client's bytes, for every segmentation; never a PROXY line *)
+Theorem dynamic_upstream_stream : forall pp line segs,
+  upstream_stream KDyn pp line segs = Ok (Some (concat segs)).
+Proof.
+  intros. unfold upstream_stream, tunnel_setup. cbn [bind s_src s_pre].
+  rewrite copy_preserves_stream. reflexivity.
+Qed.
+
+Theorem dynamic_upstream_on_domain : forall line segs,
+  upstream_stream KDyn false line segs = Ok (Some (spec_upstream KDyn false line (concat segs))).
+Proof. intros. rewrite dynamic_upstream_stream. reflexivity. Qed.
+
+Theorem dynamic_ignores_proxyproto_refuted : forall line segs, line <> [] ->
+  region_dyn_proxyproto KDyn true = true /\
+  upstream_stream KDyn true line segs <> Ok (Some (spec_upstream KDyn true line (concat segs))).
+Proof.
+  intros line segs Hl. split; [reflexivity|]. rewrite dynamic_upstream_stream. cbn [spec_upstream].
+  intros H. inversion H as [H1]. apply Hl.
+  apply (f_equal (@length N)) in H1. rewrite app_length in H1.
+  destruct line; [reflexivity | cbn [length] in H1; lia].
+Qed.
+
+(* ================= the first finished direction ends the tunnel ================= *)
+Record tinv (C U : str) (s : tstate) : Prop := {
+  ti_c : t_c_done s ++ concat (t_c_todo s) = C;
+  ti_u : t_u_done s ++ concat (t_u_todo s) = U;
+  ti_ec : t_ended s = Some C2U -> t_c_todo s = [] /\ t_c_eof s = true;
+  ti_eu : t_ended s = Some U2C -> t_u_todo s = [] /\ t_u_eof s = true
+}.
+
+Lemma tstep_inv C U d s : tinv C U s -> tinv C U (tstep d s).
+Proof.
+  intros [Hc Hu Hec Heu]. unfold tstep.
+  destruct (t_ended s) eqn:E; [constructor; rewrite ?E; assumption|].
+  destruct d.
+  - destruct (t_c_todo s) as [|ch rest] eqn:T.
+    + destruct (t_c_eof s) eqn:F.
+      * constructor; cbn [t_c_done t_c_todo t_u_done t_u_todo t_ended t_c_eof t_u_eof].
+        -- exact Hc.
+        -- exact Hu.
+        -- intros _. split; reflexivity.
+        -- discriminate.
+      * constructor; rewrite ?E, ?T; try assumption; intros X; discriminate X.
+    + constructor; cbn [t_c_done t_c_todo t_u_done t_u_todo t_ended t_c_eof t_u_eof].
+      * rewrite <- Hc. cbn [concat]. now rewrite app_assoc.
+      * exact Hu.
+      * discriminate.
+      * discriminate.
+  - destruct (t_u_todo s) as [|ch rest] eqn:T.
+    + destruct (t_u_eof s) eqn:F.
+      * constructor; cbn [t_c_done t_c_todo t_u_done t_u_todo t_ended t_c_eof t_u_eof].
+        -- exact Hc.
+        -- exact Hu.
+        -- discriminate.
+        -- intros _. split; reflexivity.
+      * constructor; rewrite ?E, ?T; try assumption; intros X; discriminate X.
+    + constructor; cbn [t_c_done t_c_todo t_u_done t_u_todo t_ended t_c_eof t_u_eof].
+      * exact Hc.
+      * rewrite <- Hu. cbn [concat]. now rewrite app_assoc.
+      * discriminate.
+      * discriminate.
+Qed.
+
+Lemma trun_inv C U sched : forall s, tinv C U s -> tinv C U (trun sched s).
+Proof.
+  induction sched as [|d sched IH]; intros s H; [exact H|].
+  unfold trun. cbn [fold_left]. apply IH. apply tstep_inv. exact H.
+Qed.
+
+Lemma tinit_inv c ceof u ueof : tinv (concat c) (concat u) (tinit c ceof u ueof).
+Proof. constructor; cbn; try reflexivity; discriminate. Qed.
+
+Lemma tstep_eof d s : t_c_eof (tstep d s) = t_c_eof s /\ t_u_eof (tstep d s) = t_u_eof s.
+Proof.
+  unfold tstep. destruct (t_ended s); [split; reflexivity|].
+  destruct d.
+  - destruct (t_c_todo s); [destruct (t_c_eof s) eqn:F|]; cbn; rewrite ?F; split; reflexivity.
+  - destruct (t_u_todo s); [destruct (t_u_eof s) eqn:F|]; cbn; rewrite ?F; split; reflexivity.
+Qed.
+
+Lemma trun_eof sched : forall s, t_c_eof (trun sched s) = t_c_eof s /\ t_u_eof (trun sched s) = t_u_eof s.
+Proof.
+  induction sched as [|d sched IH]; intros s; [split; reflexivity|].
+  unfold trun. cbn [fold_left]. destruct (IH (tstep d s)) as [H1 H2]. unfold trun in H1, H2.
+  rewrite H1, H2. apply tstep_eof.
+Qed.
+
+(* under every schedule: each side receives a prefix of what the other sent (in order,
+   once, unmodified) ... *)
+Theorem tunnel_delivers_prefixes : forall sched c ceof u ueof,
+  let s := trun sched (tinit c ceof u ueof) in
+  (exists rest, concat c = t_c_done s ++ rest) /\ (exists rest, concat u = t_u_done s ++ rest).
+Proof.
+  intros. destruct (trun_inv _ _ sched _ (tinit_inv c ceof u ueof)) as [Hc Hu _ _].
+  split; [exists (concat (t_c_todo s)) | exists (concat (t_u_todo s))]; symmetry; assumption.
+Qed.
+
+(* ... and whichever direction finishes first has had all of its data delivered *)
+Theorem finisher_fully_delivered : forall sched c ceof u ueof,
+  let s := trun sched (tinit c ceof u ueof) in
+  (t_ended s = Some C2U -> t_c_done s = concat c /\ ceof = true) /\
+  (t_ended s = Some U2C -> t_u_done s = concat u /\ ueof = true).
+Proof.
+  intros.
+  assert (Hk : t_c_eof s = ceof /\ t_u_eof s = ueof).
+  { subst s. destruct (trun_eof sched (tinit c ceof u ueof)) as [-> ->]. split; reflexivity. }
+  destruct Hk as [Hk1 Hk2].
+  destruct (trun_inv _ _ sched _ (tinit_inv c ceof u ueof)) as [Hc Hu Hec Heu]. fold s in Hc, Hu, Hec, Heu.
+  split; intros E.
+  - destruct (Hec E) as [T F]. rewrite T in Hc. cbn [concat] in Hc. rewrite app_nil_r in Hc. split; congruence.
+  - destruct (Heu E) as [T F]. rewrite T in Hu. cbn [concat] in Hu. rewrite app_nil_r in Hu. split; congruence.
+Qed.
+
+Example finisher_nonvacuous :
+  t_ended (trun [C2U; U2C; C2U; C2U] (tinit [[1%N; 2%N]; [3%N]] true [[9%N]] false)) = Some C2U.
+Proof. reflexivity. Qed.
+
+(* a client that sends, half-closes (its source ends with EOF, it keeps reading) and an
+   upstream that replies: under the schedule where the client direction sees EOF before the
+   reply is relayed the tunnel is torn down and the reply never arrives *)
+Theorem half_close_reply_refuted :
+  exists sched req reply,
+    let s := trun sched (tinit [req] true [reply] true) in
+    reply <> [] /\ t_ended s = Some C2U /\ t_c_done s = req /\ t_u_done s = [] /\ t_u_done s <> reply.
+Proof.
+  exists [C2U; C2U; U2C], [1%N; 2%N; 3%N], [7%N; 8%N].
+  cbv. repeat split; discriminate.
+Qed.
+
+(* the reply does arrive under every schedule in which the client only ends after the
+   reply has been relayed (the waiting client of the correspondence run) *)
+Theorem half_close_reply_on_domain : forall sched c u ueof,
+  let s := trun sched (tinit c false u ueof) in
+  t_ended s = Some U2C -> t_u_done s = concat u.
+Proof.
+  intros sched c u ueof s E.
+  destruct (finisher_fully_delivered sched c false u ueof) as [_ H]. fold s in H. apply H. exact E.
+Qed.
+
+(* ================= bufio.Reader: nothing is invented, reordered or duplicated ================= *)
+Definition pending (b : breader) : str := b_buf b ++ concat (b_src b).
+
+Lemma fill_pending b : pending (fill b) = pending b.
+Proof.
+  unfold fill, pending. destruct (src_read (b_cap b - buffered b) (b_src b)) as [[d s'] e] eqn:E.
+  cbn [b_buf b_src]. rewrite <- (src_read_conserves _ _ _ _ _ E). now rewrite app_assoc.
+Qed.
+
+Lemma peek_loop_pending fuel : forall b n b1, peek_loop fuel b n = Some b1 -> pending b1 = pending b.
+Proof.
+  induction fuel as [|f IH]; intros b n b1 H; cbn [peek_loop] in H.
+  - destruct ((buffered b <? n)%nat && (buffered b <? b_cap b)%nat && (b_err b =? 0)%N); [discriminate|].
+    inversion H; reflexivity.
+  - destruct ((buffered b <? n)%nat && (buffered b <? b_cap b)%nat && (b_err b =? 0)%N).
+    + rewrite (IH _ _ _ H). apply fill_pending.
+    + inversion H; reflexivity.
+Qed.
+
+(* Peek consumes nothing and returns a prefix of what is pending *)
+Lemma peek_pending b n d e b1 :
+  peek b n = Ok (d, e, b1) -> pending b1 = pending b /\ exists r, pending b = d ++ r.
+Proof.
+  unfold peek. destruct (peek_loop (S (b_cap b)) b n) as [b2|] eqn:L; [|discriminate].
+  pose proof (peek_loop_pending _ _ _ _ L) as P.
+  destruct (b_cap b2 <? n)%nat.
+  - intros H; inversion H; subst. split; [exact P|]. exists (concat (b_src b1)). rewrite <- P. reflexivity.
+  - destruct (buffered b2 <? n)%nat.
+    + intros H; inversion H; subst. unfold pending in *. cbn [clear_err b_buf b_src].
+      split; [exact P|]. exists (concat (b_src b2)). rewrite <- P. reflexivity.
+    + intros H; inversion H; subst. split; [exact P|].
+      exists (skipn n (b_buf b1) ++ concat (b_src b1)). rewrite <- P. unfold pending.
+      now rewrite app_assoc, firstn_skipn.
+Qed.
+
+Lemma firstn_skipn_app3 {A} n (l r : list A) : firstn n l ++ skipn n l ++ r = l ++ r.
+Proof. now rewrite app_assoc, firstn_skipn. Qed.
+
+(* Read hands out a prefix of what is pending and keeps the rest, in order *)
+Lemma bread_pending b n d e b1 : bread b n = (d, e, b1) -> d ++ pending b1 = pending b.
+Proof.
+  unfold bread, pending. destruct n as [|n'].
+  - destruct (0 <? buffered b)%nat; intros H; inversion H; subst; reflexivity.
+  - destruct (b_buf b) as [|x buf] eqn:B.
+    + destruct (negb (b_err b =? 0)%N).
+      * intros H; inversion H; subst. cbn [clear_err b_buf b_src]. now rewrite B.
+      * destruct (b_cap b <=? S n')%nat.
+        -- destruct (src_read (S n') (b_src b)) as [[d0 s'] e0] eqn:E.
+           intros H; inversion H; subst. cbn [b_buf b_src app].
+           apply (src_read_conserves _ _ _ _ _ E).
+        -- destruct (src_read (b_cap b) (b_src b)) as [[d0 s'] e0] eqn:E.
+           pose proof (src_read_conserves _ _ _ _ _ E) as C.
+           destruct d0 as [|y d0].
+           ++ intros H; inversion H; subst. cbn [b_buf b_src app]. exact C.
+           ++ intros H; inversion H; subst. cbn [b_buf b_src]. cbn [app] in C |- *.
+              rewrite <- C. f_equal. rewrite app_assoc. f_equal. apply firstn_skipn.
+    + intros H; inversion H; subst. cbn [set_buf b_buf b_src].
+      apply (firstn_skipn_app3 (S n') (x :: buf)).
+Qed.
+
+Lemma read_full_loop_pending fuel : forall b need acc d e b1,
+  read_full_loop fuel b need acc = Some (d, e, b1) -> d ++ pending b1 = acc ++ pending b.
+Proof.
+  induction fuel as [|f IH]; intros b need acc d e b1 H.
+  - destruct need; cbn [read_full_loop] in H; [inversion H; subst; reflexivity | discriminate].
+  - destruct need as [|need']; cbn [read_full_loop] in H; [inversion H; subst; reflexivity|].
+    destruct (bread b (S need')) as [[d0 e0] b0] eqn:R.
+    pose proof (bread_pending _ _ _ _ _ R) as P.
+    destruct (e0 =? 0)%N.
+    + rewrite (IH _ _ _ _ _ _ H). rewrite <- P. now rewrite app_assoc.
+    + destruct (S need' <=? length d0)%nat; inversion H; subst; rewrite <- P; now rewrite app_assoc.
+Qed.
+
+Lemma read_full_pending b n d e b1 : read_full b n = Ok (d, e, b1) -> d ++ pending b1 = pending b.
+Proof.
+  unfold read_full. destruct (read_full_loop (S n) b n []) as [[[d0 e0] b0]|] eqn:L; [|discriminate].
+  intros H; inversion H; subst. apply (read_full_loop_pending _ _ _ _ _ _ _ L).
+Qed.
+
+(* ================= tcp+sni ================= *)
+(* every byte the client sent is either written to the upstream before the copy starts
+   ([data]), still in the connection ([s_src]) or stuck in the bufio.Reader ([s_lost]) *)
+Theorem sni_conservation : forall line segs st,
+  sni_setup line segs = Ok (Some st) ->
+  exists data, s_pre st = line ++ data /\ data ++ s_lost st ++ concat (s_src st) = concat segs.
+Proof.
+  intros line segs st. unfold sni_setup.
+  destruct (peek (new_reader 4096 segs) 9) as [[[hdr e1] b1]|k1|] eqn:P; cbn [bind]; try discriminate.
+  destruct (peek_pending _ _ _ _ _ P) as [P1 _].
+  destruct (negb (e1 =? 0)%N); [discriminate|].
+  destruct (client_hello_buffer_size hdr) as [size|k2|]; try discriminate.
+  destruct (read_full b1 (N.to_nat size)) as [[[data e2] b2]|k3|] eqn:R; cbn [bind]; try discriminate.
+  pose proof (read_full_pending _ _ _ _ _ R) as P2.
+  destruct (negb (e2 =? 0)%N); [discriminate|].
+  destruct (read_server_name (skipn 5 data)) as [[|c name]|k4|]; try discriminate.
+  intros H; inversion H; subst. cbn [s_pre s_lost s_src].
+  exists data. split; [reflexivity|].
+  unfold pending in *. rewrite P2, P1. reflexivity.
+Qed.
+
+(* hence the upstream receives the PROXY line and the client's stream with exactly the
+   stuck bytes cut out ... *)
+Theorem sni_upstream_stream : forall (pp : bool) (line : str) segs st,
+  sni_setup (if pp then line else []) segs = Ok (Some st) ->
+  exists data, data ++ s_lost st ++ concat (s_src st) = concat segs /\
+    upstream_stream KSni pp line segs = Ok (Some ((if pp then line else []) ++ data ++ concat (s_src st))).
+Proof.
+  intros pp line segs st H. destruct (sni_conservation _ _ _ H) as [data [Hp Hc]].
+  exists data. split; [exact Hc|].
+  unfold upstream_stream, tunnel_setup. rewrite H. cbn [bind].
+  rewrite copy_preserves_stream. cbn [bind]. rewrite Hp. now rewrite app_assoc.
+Qed.
+
+(* ... which is the whole stream, for every segmentation, whenever nothing is stuck *)
+Theorem sni_upstream_stream_on_domain : forall (pp : bool) (line : str) segs,
+  region_sni_leftover KSni (if pp then line else []) segs = false ->
+  forall st, sni_setup (if pp then line else []) segs = Ok (Some st) ->
+  upstream_stream KSni pp line segs = Ok (Some (spec_upstream KSni pp line (concat segs))).
+Proof.
+  intros pp line segs Hr st H. unfold region_sni_leftover in Hr. rewrite H in Hr.
+  apply negb_false_iff, beq_eq in Hr.
+  destruct (sni_upstream_stream _ _ _ _ H) as [data [Hc ->]].
+  rewrite Hr in Hc. cbn [app] in Hc. cbn [spec_upstream]. now rewrite Hc.
+Qed.
+
+Definition wit_hello : str := enc_record 3 1 ex_hello.
+
+Example sni_on_domain_nonvacuous :
+  region_sni_leftover KSni [] [firstn 20 wit_hello; skipn 20 wit_hello; [1; 2; 3]%N] = false /\
+  upstream_stream KSni false [] [firstn 20 wit_hello; skipn 20 wit_hello; [1; 2; 3]%N]
+    = Ok (Some (wit_hello ++ [1; 2; 3]%N)).
+Proof. split; vm_compute; reflexivity. Qed.
+
+(* a first segment that carries the ClientHello plus 3 more bytes: they never arrive,
+   although bytes sent later do *)
+Theorem sni_leftover_refuted :
+  exists segs, region_sni_leftover KSni [] segs = true /\
+    upstream_stream KSni false [] segs = Ok (Some (wit_hello ++ [9%N])) /\
+    concat segs = wit_hello ++ [1; 2; 3; 9]%N /\
+    upstream_stream KSni false [] segs <> Ok (Some (spec_upstream KSni false [] (concat segs))).
+Proof.
+  exists [wit_hello ++ [1; 2; 3]%N; [9%N]].
+  split; [vm_compute; reflexivity|]. split; [vm_compute; reflexivity|].
+  split; [vm_compute; reflexivity|]. vm_compute. discriminate.
+Qed.
+
+(* ================= websocket relay ================= *)
+Lemma firstn_app_exact {A} (p r : list A) n : (length p <= n)%nat -> exists r', firstn n (p ++ r) = p ++ r'.
+Proof.
+  intros H. exists (firstn (n - length p) r). rewrite firstn_app.
+  rewrite firstn_all2 by exact H. reflexivity.
+Qed.
+
+(* a first segment that carries at least the 12 tested bytes is accepted *)
+Theorem ws_upgrade_on_domain : forall seg1, has_prefix seg1 ws_101 = true -> ws_upgraded seg1 = true.
+Proof.
+  intros seg1 H. apply has_prefix_spec in H. destruct H as [r ->].
+  unfold ws_upgraded, ws_first_chunk. apply has_prefix_spec.
+  apply firstn_app_exact. vm_compute. lia.
+Qed.
+
+Definition wit_reply : str := bs "HTTP/1.1 101 Switching Protocols
+"%string.
+
+(* the same reply arriving as "HTTP/1.1 1" + rest: the client receives the first 10 bytes
+   and nothing else, the upstream nothing *)
+Theorem ws_split_101_refuted :
+  exists e, has_prefix wit_reply ws_101 = true /\ region_ws_split KWs wit_reply 10 = true /\
+    scenario_expect KWs false [] [[1; 2]%N] false CStay UAtConnect wit_reply 10 (nlen' wit_reply) UStay = Ok e /\
+    e_cl e = firstn 10 wit_reply /\ e_cl_hi e = 10%N /\ e_up e = [] /\
+    spec_b KWs false [] [1; 2]%N false CStay UAtConnect wit_reply UStay (e_up e) (e_cl e) = false.
+Proof. eexists. repeat split; vm_compute; reflexivity. Qed.
+
+Example ws_unsplit_accepted :
+  exists e, scenario_expect KWs false [] [[1; 2]%N] false CStay UAtConnect wit_reply 0 (nlen' wit_reply) UStay = Ok e /\
+    e_cl e = wit_reply /\ e_cl_lo e = nlen' wit_reply /\ e_up e = [1; 2]%N /\ e_up_lo e = 2%N.
+Proof. eexists. repeat split; vm_compute; reflexivity. Qed.
+
+(* ================= the scripted scenarios: outside the finding regions the model's forced
+   outcome meets the specification (tcp and tcp-dynamic; sni through sni_upstream_stream_on_domain) *)
+Lemma is_prefix_refl s : is_prefix s s = true.
+Proof. induction s as [|x s IH]; cbn [is_prefix]; [reflexivity|]. now rewrite N.eqb_refl, IH. Qed.
+
+Theorem half_close_scenario_refuted :
+  exists e, region_half_close false CHalf = true /\
+    scenario_expect KTcp false [] [[1; 2; 3]%N] false CHalf UOnEOF [7; 8]%N 0 0 UClose = Ok e /\
+    e_up e = [1; 2; 3]%N /\ e_up_lo e = 3%N /\ e_cl_hi e = 0%N /\
+    spec_b KTcp false [] [1; 2; 3]%N false CHalf UOnEOF [7; 8]%N UClose [1; 2; 3]%N [] = false.
+Proof. eexists. repeat split; vm_compute; reflexivity. Qed.
+
+Example waiting_client_scenario :
+  exists e, scenario_expect KTcp false [] [[1; 2; 3]%N] true CHalf (UAfterBytes 3) [7; 8]%N 0 0 UStay = Ok e /\
+    e_up_lo e = 3%N /\ e_cl_lo e = 2%N /\
+    spec_b KTcp false [] [1; 2; 3]%N true CHalf (UAfterBytes 3) [7; 8]%N UStay [1; 2; 3]%N [7; 8]%N = true.
+Proof. eexists. repeat split; vm_compute; reflexivity. Qed.
